@@ -66,6 +66,10 @@ WRITER_PATHS = [
     ({"main.html": "<p>{{ h }}</p>{% for i in k %}{{ i }}{% endfor %}{{ h|safe }}"}, "main.html", "template", True, False),
     ({"main": "x{{ obj }}y{{ [obj, 1] }}{% set c %}{{ obj }}{% endset %}{{ c }}"}, "main", "template", False, True),         # Object::render writing in pieces
     ({"main.html": "{{ obj }}{{ obj|string }}{{ obj|upper }}"}, "main.html", "template", True, True),
+    ({"main": "a{{ none }}b{{ true }}{{ false }}c{{ n }}{{ 1.5 }}d{{ l }}{{ [] }}e{{ nosuch }}f{{ s }}{{ d }}"}, "main", "template", True, False),   # every write path of the formatter
+    ({"main.html": "{{ none }}{{ h }}{{ [none, h, 2] }}{% for i in k %}{{ i }}{{ none }}{% endfor %}{% set c %}{{ none }}{{ true }}{% endset %}{{ c }}"}, "main.html", "template", True, False),
+    ({"main": "x{% block q %}{{ none }}{{ n }}{{ true }}{{ [1, none] }}{% endblock %}y"}, "main", "template+block:q", True, False),
+    ({"main": "x{% block q %}{{ none }}|{{ true }}|{{ n }}{% endblock %}y"}, "main", "block:q", True, False),
     ({"main": "head{% block q %}q{{ n }}{% for i in k %}{{ i }}{% endfor %}{% endblock %}tail"}, "main", "template+block:q", False, False),   # render_captured_to, then render_block_to_write on the returned state
     ({"main": "{% extends 'base' %}{% block a %}[{{ super() }}|{{ n }}]{% endblock %}", "base": "head {% block a %}base-a{{ m }}{% endblock %} tail"}, "main", "template+block:a", False, False),
     ({"main": "x{% block q %}{{ 1 // 0 }}{% endblock %}"}, "main", "block:q", False, False),
